@@ -31,27 +31,30 @@ def sh(cmd: str, cwd: str | None = None, env: dict[str, str] | None = None, time
     return p.returncode, (p.stdout + p.stderr)[-3000:]
 
 
-def do_import(wt: str, sid: str, prop: str) -> int:
-    src = Path(wt)
+def do_import(wt: str | None, sid: str, prop: str) -> int:
     dst = SEEDED / sid
     dst.mkdir(parents=True, exist_ok=True)
-    rc, out = sh("git diff -- src", cwd=wt)
-    patch = out if False else subprocess.run("git diff -- src", shell=True, cwd=wt, capture_output=True, text=True).stdout
-    if not patch.strip() and (src / "patch.diff").exists():
-        patch = (src / "patch.diff").read_text()
-    (dst / "patch.diff").write_text(patch)
-    demos = sorted(src.glob("demo_*.py"))
-    if not demos:
-        print("no demo_*.py in", wt)
-        return 2
-    demo = demos[0]
-    shutil.copy(demo, dst / demo.name)
     meta = {}
-    if (src / "meta.json").exists():
-        try:
-            meta = json.loads((src / "meta.json").read_text())
-        except Exception as e:  # noqa: BLE001
-            meta = {"meta_parse_error": str(e)}
+    if wt is not None:
+        src = Path(wt)
+        patch = subprocess.run("git diff -- src", shell=True, cwd=wt, capture_output=True, text=True).stdout
+        if not patch.strip() and (src / "patch.diff").exists():
+            patch = (src / "patch.diff").read_text()
+        (dst / "patch.diff").write_text(patch)
+        demos = sorted(src.glob("demo_*.py"))
+        if not demos:
+            print("no demo_*.py in", wt)
+            return 2
+        demo = demos[0]
+        shutil.copy(demo, dst / demo.name)
+        if (src / "meta.json").exists():
+            try:
+                meta = json.loads((src / "meta.json").read_text())
+            except Exception as e:  # noqa: BLE001
+                meta = {"meta_parse_error": str(e)}
+    else:  # re-confirm an already imported seed
+        demo = sorted(dst.glob("demo_*.py"))[0]
+        meta = json.loads((dst / "meta.json").read_text())
     # confirm in a fresh scratch worktree
     tmp = tempfile.mkdtemp(prefix="seedchk-")
     wt2 = os.path.join(tmp, "wt")
@@ -130,6 +133,8 @@ def do_run(sid: str, props: list[str], in_repo: bool = False) -> int:
 if __name__ == "__main__":
     if sys.argv[1] == "import":
         sys.exit(do_import(sys.argv[2], sys.argv[3], sys.argv[4]))
+    if sys.argv[1] == "confirm":
+        sys.exit(do_import(None, sys.argv[2], sys.argv[3]))
     if sys.argv[1] == "run":
         args = [a for a in sys.argv[3:] if a != "--in-repo"]
         sys.exit(do_run(sys.argv[2], args, in_repo="--in-repo" in sys.argv))
